@@ -113,7 +113,7 @@ func c05Run(c *vcore.Ctx) *vcore.Violation {
 	}()
 	mb := mount.NewBuilder().WithBind(filepath.Dir(probePath), "probe", true)
 	if impl == "container" {
-		mb = mb.WithTmpfs("w", "")
+		mb = mb.WithTmpfs("w", "").WithBind("/dev/null", "dev/null", false)
 	}
 	for _, e := range ents {
 		switch e.kind {
@@ -148,11 +148,18 @@ func c05Run(c *vcore.Ctx) *vcore.Violation {
 			script = append(script, "statfs", t, "cat", "/proc/kcore", "cat", "/proc/self/status")
 		}
 	}
+	for _, e := range ents {
+		if impl == "container" && e.kind == "binddir" && !strings.Contains(e.target, "/") {
+			script = append(script, "ls", "/"+e.target+"/maskdir", "mods", "/"+e.target+"/maskdir", "cat", "/"+e.target+"/maskfile")
+			break
+		}
+	}
 	script = append(script, "sys", "80", "s:/..", "0", "0", "0", "0", "0", "ls", ".", "cat", secret, "exit", "0")
 
 	var res runner.Result
 	var out *kOut
 	var mountinfo string
+	maskedIn := ""
 	sync := func(pid int) error {
 		b, _ := os.ReadFile(fmt.Sprintf("/proc/%d/mountinfo", pid))
 		mountinfo = string(b)
@@ -167,6 +174,16 @@ func c05Run(c *vcore.Ctx) *vcore.Violation {
 			res, out = kRunUnshare(context.Background(), &kOpts{script: script, root: root, mounts: mounts, syncFunc: sync, argv0: probeIn})
 		} else {
 			b := container.Builder{Root: root, Mounts: mb.Mounts}
+			// custom masks: a directory and a file inside the first directory bind must reveal nothing and accept nothing
+			for _, e := range ents {
+				if e.kind == "binddir" && !strings.Contains(e.target, "/") {
+					os.MkdirAll(filepath.Join(e.source, "maskdir", "inner"), 0777)
+					os.WriteFile(filepath.Join(e.source, "maskfile"), []byte("host content"), 0666)
+					b.MaskPaths = []string{"/" + e.target + "/maskdir", "/" + e.target + "/maskfile", "/proc/kcore", "/proc/acpi"}
+					maskedIn = "/" + e.target
+					break
+				}
+			}
 			env, err := b.Build()
 			if err != nil {
 				res = runner.Result{Status: runner.StatusRunnerError, Error: "container build: " + err.Error()}
@@ -311,6 +328,29 @@ func c05Run(c *vcore.Ctx) *vcore.Violation {
 			}
 		}
 	}
+	if maskedIn != "" {
+		section = ""
+		for _, l := range lines {
+			if strings.HasPrefix(l, "ls "+maskedIn+"/maskdir") {
+				section = "mask"
+			}
+			if strings.HasPrefix(l, "ent ") && section == "mask" {
+				return vcore.Violate(prop, "masked_path_readable", impl+"/dir", "the masked directory %s/maskdir lists %q", maskedIn, l)
+			}
+			if l == "endls" {
+				section = ""
+			}
+			if strings.HasPrefix(l, "cat "+maskedIn+"/maskfile ") {
+				f := strings.Fields(l)
+				if v, _ := strconv.Atoi(f[2]); v > 0 {
+					return vcore.Violate(prop, "masked_path_readable", impl+"/file", "the masked file %s/maskfile yields %d bytes", maskedIn, v)
+				}
+			}
+		}
+		if m := mods[maskedIn+"/maskdir"]; m != nil && (m["creat"] == 0 || m["mkdir"] == 0) {
+			return vcore.Violate(prop, "masked_path_writable", impl, "the masked directory %s/maskdir accepts modifications: %v", maskedIn, m)
+		}
+	}
 	// after chdir("/..") the listing of "." is the root again
 	afterDot := map[string]bool{}
 	section = ""
@@ -336,6 +376,7 @@ func c05Run(c *vcore.Ctx) *vcore.Violation {
 		roWant := map[string]bool{"/": true, "/probe": true}
 		if impl == "container" {
 			declared["/w"] = true
+			declared["/dev/null"] = true
 		}
 		for _, e := range ents {
 			if e.kind == "missing" {
@@ -350,7 +391,8 @@ func c05Run(c *vcore.Ctx) *vcore.Violation {
 				continue
 			}
 			mp, opts := f[4], f[5]
-			masked := strings.HasPrefix(mp, "/proc/") || strings.HasPrefix(mp, "/sys/") || strings.HasPrefix(mp, "/usr/lib/wsl")
+			masked := strings.HasPrefix(mp, "/proc/") || strings.HasPrefix(mp, "/sys/") || strings.HasPrefix(mp, "/usr/lib/wsl") ||
+				(maskedIn != "" && strings.HasPrefix(mp, maskedIn+"/mask"))
 			if !declared[mp] && !masked {
 				return vcore.Violate(prop, "undeclared_mount", impl, "the program's mount table contains %s (%s)", mp, l)
 			}
